@@ -39,7 +39,7 @@ Sites == {
   "for.map",            \* nodes.py NodeFor, map branch (keys / values / entries by key)
   "compr.set",          \* nodes.py getCollectionValue, set
   "compr.map.keys",     \* nodes.py getCollectionValue, map keys
-  "compr.map.values",   \* nodes.py getCollectionValue, map values (the values themselves are sorted)
+  "compr.map.values",   \* nodes.py getCollectionValue, map values (by ascending key, like for.map)
   "compr.map.entries",  \* nodes.py getCollectionValue, map entries
   "aslist.set",         \* values.py ValueSet.asList   (list(s), [] + s, ...)
   "aslist.map",         \* values.py ValueMap.asList   (the values themselves are sorted)
@@ -67,7 +67,8 @@ Entries(q) == [i \in 1..(2 * Len(q)) |->
                  IF i % 2 = 1 THEN q[(i + 1) \div 2] ELSE ValOf(q[i \div 2])]
 
 (* what the site hands on: the elements / keys, the values by key, the
-   flattened entries, or (two sites) the values sorted among themselves *)
+   flattened entries, or (one site, ValueMap.asList) the values sorted among
+   themselves *)
 Enum(site, proj, c, tab) ==
   LET q == KeysAt(site, c, tab) IN
   CASE proj = "elems"      -> q
@@ -93,7 +94,7 @@ Programs == <<
   P("for.map.entries",     <<E("for.map", "entries")>>),
   P("compr.set",           <<E("compr.set", "elems")>>),
   P("compr.map.keys",      <<E("compr.map.keys", "keys")>>),
-  P("compr.map.values",    <<E("compr.map.values", "sortedvals")>>),
+  P("compr.map.values",    <<E("compr.map.values", "vals")>>),
   P("compr.map.entries",   <<E("compr.map.entries", "entries")>>),
   P("aslist.set",          <<E("aslist.set", "elems")>>),
   P("aslist.map",          <<E("aslist.map", "sortedvals")>>),
@@ -124,7 +125,7 @@ Programs == <<
   P("spread.list.set+sort",         <<E("spread.list.set", "elems"), Sort>>),
   P("spread.list.set+first",        <<E("spread.list.set", "elems"), Take(1)>>),
   P("aslist.set+sort",              <<E("aslist.set", "elems"), Sort>>),
-  P("compr.map.values+sum",         <<E("compr.map.values", "sortedvals"), Sum>>),
+  P("compr.map.values+sum",         <<E("compr.map.values", "vals"), Sum>>),
   P("aslist.map+sum",               <<E("aslist.map", "sortedvals"), Sum>>)
 >>
 
